@@ -89,6 +89,7 @@ type Call struct {
 	ErrObj   error                 `json:"-"`
 	Fault    string                // injected fault kind, if any
 	Deleted  bool                  // delete calls: object removed at once (vs. graceful)
+	Applied  bool                  // the call took effect in the API (even if its response was lost or the process died)
 	DelOpts  *metav1.DeleteOptions `json:",omitempty"`
 }
 
@@ -113,13 +114,16 @@ func (c *Call) String() string {
 
 // Fault kinds (DESIGN.md 2.5).
 const (
-	FErr500      = "err500"
-	FTimeout     = "timeoutApplied"
-	FConflict    = "conflict"
-	FGone        = "gone"
-	FExists      = "exists"
-	FCrashBefore = "crashBefore"
-	FCrashAfter  = "crashAfter"
+	FErr500   = "err500"
+	FTimeout  = "timeoutApplied"
+	FConflict = "conflict"
+	// FConflictFresh: like conflict, and the informer caches have caught up with the foreign write by
+	// the time the code re-reads them (what conflict-retry loops rely on)
+	FConflictFresh = "conflictFresh"
+	FGone          = "gone"
+	FExists        = "exists"
+	FCrashBefore   = "crashBefore"
+	FCrashAfter    = "crashAfter"
 )
 
 // FaultPlan maps call IDs to a fault kind.
@@ -439,6 +443,10 @@ func (w *World) react(action clienttesting.Action) (bool, runtime.Object, error)
 		return w.finish(c, nil, apierrors.NewInternalError(fmt.Errorf("injected")))
 	case FConflict:
 		w.foreignTouch(c.Resource, c.Name)
+	case FConflictFresh:
+		w.foreignTouch(c.Resource, c.Name)
+		w.S.SyncCaches()
+		w.fillCaches()
 	case FGone:
 		w.foreignRemove(c.Resource, c.Name)
 	case FExists:
@@ -447,6 +455,7 @@ func (w *World) react(action clienttesting.Action) (bool, runtime.Object, error)
 		}
 	}
 	obj, err := w.apply(c, action)
+	c.Applied = err == nil
 	switch fault {
 	case FTimeout:
 		return w.finish(c, nil, apierrors.NewTimeoutError("injected: response lost", 0))
